@@ -49,8 +49,10 @@ type UPtr struct{ p Value }
 
 // Str is a string of concrete length; b != nil means symbolic bytes.
 type Str struct {
-	s string
-	b []*Term
+	s     string
+	b     []*Term
+	opq   bool  // content unknown (formatted from symbolic operands); only flows into sinks
+	taint uint8 // bitmask of taint sources (C17: client address)
 }
 
 func (s Str) Len() int {
@@ -61,6 +63,9 @@ func (s Str) Len() int {
 }
 
 func (s Str) Concrete() (string, bool) {
+	if s.opq {
+		return "", false
+	}
 	if s.b == nil {
 		return s.s, true
 	}
